@@ -22,7 +22,7 @@ use truc::record::{
 };
 use vcore::*;
 
-const POOL: [&str; 6] = ["alpha", "beta", "gamma", "delta", "eps", "zeta"];
+const POOL: [&str; 8] = ["alpha", "beta", "gamma", "delta", "eps", "zeta", "r#type", "r#match"];
 
 #[derive(Clone, Debug, Serialize, Deserialize, PartialEq, Eq, Hash)]
 pub enum AdvReq {
@@ -48,7 +48,7 @@ pub struct AdvHistory {
 
 fn adv_req() -> impl Strategy<Value = AdvReq> {
     prop_oneof![
-        10 => (prop::option::weighted(0.7, 0u8..6), shape_strategy(), any::<bool>())
+        10 => (prop::option::weighted(0.7, 0u8..8), shape_strategy(), any::<bool>())
             .prop_map(|(name, (size, align), uninit)| AdvReq::Add { name, size, align, uninit }),
         4 => any::<u16>().prop_map(|sel| AdvReq::RemoveCurrent { sel }),
         3 => any::<u16>().prop_map(|sel| AdvReq::RemoveIssued { sel }),
@@ -60,7 +60,21 @@ fn adv_req() -> impl Strategy<Value = AdvReq> {
 fn adv_history() -> impl Strategy<Value = AdvHistory> {
     (
         any::<bool>(),
-        prop::collection::vec(adv_req(), 0..40),
+        prop_oneof![
+            12 => prop::collection::vec(adv_req(), 0..40).boxed(),
+            2 => prop::collection::vec(adv_req(), 40..160).boxed(),
+            // a first variant with more than 64 data, then the usual requests
+            1 => (66usize..90, strat_strategy(), prop::collection::vec(adv_req(), 0..40))
+                .prop_map(|(n, strat, rest)| {
+                    let mut reqs: Vec<AdvReq> = (0..n)
+                        .map(|i| AdvReq::Add { name: None, size: 1 << (i % 4), align: 1 << (i % 4), uninit: i % 2 == 0 })
+                        .collect();
+                    reqs.push(AdvReq::Close { strat });
+                    reqs.extend(rest);
+                    reqs
+                })
+                .boxed(),
+        ],
         prop::bool::weighted(0.3),
         strat_strategy(),
     )
